@@ -220,7 +220,7 @@ def id_discipline(F, R, ver):
     removes = {x[0] for x in calls_on_field(b, r'HashSet::<T, S, A>::remove$', 'inflight_ids')}
     requeue = {x[0] for x in calls_on_field(b, r'VecDeque::<T, A>::push_back$', 'inflight')}
     oks = [(bi, j) for bi, j, s in b.assigns() if s['lhs']['l'] == 0 and s['rv']['k'] == 'agg' and s['rv'].get('variant') == 'Ok']
-    R.floor('C06.id-discipline', '%s Ok exits of pkt_ack_inner' % ver, len(oks), 3)
+    R.floor('C06.id-discipline', '%s Ok exits of pkt_ack_inner' % ver, len(oks), 1)
     for bi, j in oks:
         ok = b.must_pass(removes | requeue, bi)
         R.ob('C06.id-discipline', '%s::shared::MqttShared::pkt_ack_inner|Ok-exit|%s|id-released' % (ver, region_label(b, bi)), ok,
@@ -298,6 +298,22 @@ def error_closes(F, R, ver):
                 errt = tg.get(1, oth)
                 reg = b.reachable(errt)
                 ok = any(x in reg for x, _ in b.calls_to(r'%s::shared::MqttShared::close$' % ver))
+    if not ok:
+        # `if result.is_err() { close(..) }` / `if !result.is_ok()`
+        closes = {x for x, _ in b.calls_to(r'%s::shared::MqttShared::close$' % ver)}
+        for bi, t in inner:
+            for xb, xt in b.calls():
+                nm = callee_name(xt) or ''
+                if not (nm.endswith('::is_err') or nm.endswith('::is_ok')) or not xt['args']:
+                    continue
+                if not any(l[0] == 'call' and l[2] == bi for l in Origin(b).of_operand(xt['args'][0])):
+                    continue
+                rr = call_bool_branch(b, xb)
+                if not rr or rr[0] == 'discr':
+                    continue
+                err_e, ok_e = (rr[1], rr[2]) if nm.endswith('::is_err') else (rr[2], rr[1])
+                if closes & b.reachable(err_e, avoid=[ok_e]):
+                    ok = True
     R.ob('C06.error-closes', '%s::shared::MqttShared::pkt_ack|Err=>close' % ver, bool(inner) and ok,
          'pkt_ack must turn every error of pkt_ack_inner into close()', '%s:%s' % (b.file, b.line))
     # every Err of pkt_ack_inner is a ProtocolError by type
